@@ -280,15 +280,34 @@ def rule_length_honoured(ctx: Ctx) -> None:
 
 def _length_checked(ctx: Ctx, fi: FuncInfo, cfg, sl: ast.Subscript, data: str, wire: set[str]):
     st = enclosing_stmt(sl)
-    # idiom 1: dominating fact comparing len(data) (or the remaining length) with a wire-derived expression
+    # idiom 1: dominating fact  not (END > len(data))  where END is exactly the slice's upper bound (as a linear form:
+    # a check of the raw item count before it is scaled to bytes does not protect the slice)
+    from .c02_packers import PackerModel, UnpackRun, Unknown
+    run = UnpackRun(PackerModel(ctx, fi.cls), fi)
+    for s_ in sorted((x for x in walk_no_nested(fi.node) if isinstance(x, ast.stmt) and x is not fi.node and x.lineno <= sl.lineno and not isinstance(x, (ast.If, ast.For, ast.While, ast.Try, ast.With))),
+                     key=lambda x: x.lineno):
+        try:
+            run.stmt(s_)
+        except Unknown:
+            pass
+    try:
+        upper = run.lin(sl.slice.upper)
+    except Unknown:
+        upper = None
     for f in facts_at(cfg, sl):
-        if f.op in ("lt", "eq") and f.right is not None:
-            both = [f.left, f.right]
-            has_len = any(isinstance(x, ast.Call) and chain(x.func) == "len" and x.args and chain(x.args[0]) == data
-                          for s in both for x in ast.walk(s))
-            has_wire = any(names_in(s) & wire for s in both)
-            if has_len and has_wire:
-                return True, "dominating comparison with len(data)"
+        if f.op == "lt" and f.right is not None and upper is not None:
+            # not (len(data) < END)  or  not (END > len(data)) normalised by fact_of to lt(len(data), END) with pos False
+            try:
+                l, r = run.lin(f.left), run.lin(f.right)
+            except Unknown:
+                continue
+            from .c02_packers import Lin
+            if not f.pos and l == Lin.sym("len(data)") and r == upper:
+                return True, "dominating comparison of the slice end with len(data)"
+            if f.pos and r == Lin.sym("len(data)") and (l == upper or l + Lin(1) == upper or l == upper + Lin(-1)):
+                return True, "dominating comparison of the slice end with len(data)"
+            if not f.pos and l == Lin.sym("len(data)") and r != upper:
+                continue
     # idiom 2: the slice result's length is compared with the wire length afterwards and a mismatch raises
     tgt = None
     if isinstance(st, ast.Assign) and len(st.targets) == 1 and isinstance(st.targets[0], ast.Name):
@@ -438,7 +457,29 @@ def rule_snapshot(ctx: Ctx) -> None:
               "progress detection is broken: previous_offset is not the offset before the entry")
 
 
+def rule_listener_lists(ctx: Ctx) -> None:
+    """notify_listeners iterates the live listener lists: they may be rebound or appended to, never shrunk in place."""
+    repo = ctx.repo
+    ep = repo.cls("Endpoint", "ipv8/messaging/interfaces/endpoint.py")
+    nl = ep.methods["notify_listeners"]
+    copies = any(isinstance(l, ast.For) and isinstance(l.iter, ast.Call) and chain(l.iter.func) in ("list", "tuple") for l in walk_no_nested(nl.node))
+    n = 0
+    for f in ep.methods.values():
+        for c in calls(f):
+            ch = chain(c.func) or ""
+            if call_name(c) in ("remove", "pop", "clear", "insert", "__delitem__") and (ch.startswith("self._listeners.") or ch.startswith("self._prefix_map[].")):
+                n += 1
+                ctx.check(copies, "handler-contained", f, c, "listener lists are not shrunk in place (or delivery iterates a copy)",
+                          f"{f.qualname} removes from a listener list in place (`{norm(c)}`) while notify_listeners iterates that very list: when a listener unregisters "
+                          "during a delivery the next listener is skipped and never gets the datagram")
+        for s_ in walk_no_nested(f.node):
+            if isinstance(s_, ast.Delete) and any((chain(t) or "").startswith(("self._listeners[]", "self._prefix_map[][]")) for t in s_.targets):
+                ctx.check(copies, "handler-contained", f, s_, "listener lists are not shrunk in place", "a listener list is shrunk in place during possible iteration")
+    ctx.instance("handler-contained", ep.where, f"{n} in-place removals from listener lists (delivery iterates a copy: {copies})", nontrivial=False)
+
+
 def run(ctx: Ctx) -> None:
+    rule_listener_lists(ctx)
     rule_bounds(ctx)
     rule_dispatch(ctx)
     rule_length_honoured(ctx)
